@@ -39,7 +39,9 @@ the property text fails there** (see the header of `Spec/ComparableSensCheck.lea
 
 Totality: `renderFrom_total` — no exception when every collected structure has a registered type, a `sofa` slot that is
 absent or points to an existing view, non-negative offsets where covered text is shown, and arrays have their `elements`
-slot and are nested within the recursion budget of the model (`WellNested`, `RowOk`).
+slot and are nested within the recursion budget of the model (`WellNested`, `RowOk`; the budget is `2 * |heap| + 2`,
+two units per level of array nesting, which every acyclic nesting fits into — it used to be `|heap| + 1`, see
+`Spec/ComparableSensCheck.lean` §C).
 -/
 import CassisModel.Proofs.ComparableSens
 import CassisModel.Proofs.ComparableSensTotal
@@ -209,7 +211,7 @@ theorem renderFrom_indexed_sensitive (K : Consts) (ts : TypeSystem) (cass : List
     a ha hex hmark hin hnin secs secs' h h'
 
 /-- **totality.**  `renderFrom` does not raise on well-formed input: arrays are nested without a cycle and within the
-    recursion budget (`need` is the certificate, `WellNested`), and every collected structure has a registered type, a
+    recursion budget `2 * |heap| + 2` (`need` is the certificate, `WellNested`), and every collected structure has a registered type, a
     `sofa` slot that is absent or points to an existing view, a sofa and non-negative offsets where covered text is
     shown, and — if it is an array — an `elements` slot (`RowOk`). -/
 theorem renderFrom_total (K : Consts) (ts : TypeSystem) (cass : List Cas) (hp : Heap) (o : Opts) (hsh : Nat → Int)
